@@ -22,6 +22,7 @@ type Expect struct {
 	Rel      int    `json:"rel"`
 	Plat     string `json:"plat"` // "any" | goos/goarch
 	Excepted bool   `json:"excepted"`
+	Emission string `json:"emission"` // "any" (C18 uses the field for PkgGen's expectation)
 	Source   string `json:"source"`
 }
 
@@ -96,7 +97,7 @@ func loadAPI(goroot string, maxRel int) ([]Expect, error) {
 	var out []Expect
 	for key, r := range first {
 		out = append(out, Expect{Kind: "expect", KeyPath: key.pkg, Name: key.name, Class: key.class, Generic: key.generic,
-			Rel: r, Plat: key.plat, Excepted: key.excepted, Source: "api"})
+			Rel: r, Plat: key.plat, Excepted: key.excepted, Emission: "any", Source: "api"})
 	}
 	// package unsafe is not recorded in GOROOT/api: its universe is fixed by go/types
 	for _, n := range types.Unsafe.Scope().Names() {
@@ -106,7 +107,7 @@ func loadAPI(goroot string, maxRel int) ([]Expect, error) {
 		if builtin {
 			cl = "builtin"
 		}
-		out = append(out, Expect{Kind: "expect", KeyPath: "unsafe", Name: n, Class: cl, Generic: builtin, Rel: 0, Plat: "any", Source: "go/types.Unsafe"})
+		out = append(out, Expect{Kind: "expect", KeyPath: "unsafe", Name: n, Class: cl, Generic: builtin, Rel: 0, Plat: "any", Emission: "any", Source: "go/types.Unsafe"})
 	}
 	sort.Slice(out, func(i, j int) bool {
 		a, b := out[i], out[j]
